@@ -1,7 +1,7 @@
 (* Extract/E_C02.v — wire entry for C02 (glue, not trusted for theorems).
    case   = [ver; how; lo; lu; ro; ru; lkeys; rkeys; lcols; rcols; lsuf; rsuf; cs; mcs; vf; ccs; kvs]
-            kvs  = per key column: 1 when the code under test compares that pair of key columns after
-                   converting both to binary64 (Model/KeyView.v), 0 when it compares them exactly.  The MODEL
+            kvs  = per key column: 1 when the code under test casts both key columns of that pair to float64
+                   before joining (pandas path, integer with float: Model/KeyView.v), 0 otherwise.  The MODEL
                    joins on the viewed keys; the SPECIFICATION always joins on the keys themselves.
             ver 0 = MFixed (repaired dataframe.py), 1 = MOrig (as found)
             how 0 left, 1 right, 2 inner, 3 outer; lkeys/rkeys = list of key columns (list of ints)
